@@ -4,6 +4,8 @@ import (
 	"bytes"
 	"context"
 	"fmt"
+	"github.com/itchio/savior"
+	"io"
 	"path/filepath"
 	"testing"
 	"time"
@@ -115,6 +117,29 @@ func subjSignature(stream []byte) error {
 	}
 	_, err = pwr.ComputeHashInfo(si)
 	return err
+}
+
+// subjSignatureGuard hands the stream to a safekeeper placed over the very build the (valid)
+// signature was made for, and reads the first files through it.
+func subjSignatureGuard(stream []byte, dir string) error {
+	c := Walk(dir)
+	sk, err := pwr.NewSafeKeeper(pwr.SafeKeeperParams{Inner: fspool.New(c, dir), Open: func() (savior.SeekSource, error) {
+		src := seeksource.NewWithSize(budgetSource(stream, 20*len(stream)+5000), int64(len(stream)))
+		_, err := src.Resume(nil)
+		return src, err
+	}})
+	if err != nil {
+		return err
+	}
+	defer sk.Close()
+	for i := 0; i < len(c.Files) && i < 3; i++ {
+		r, err := sk.GetReader(int64(i))
+		if err != nil {
+			continue
+		}
+		io.Copy(io.Discard, r)
+	}
+	return nil
 }
 
 func subjOverlay(stream []byte, old []byte) error {
@@ -486,6 +511,10 @@ func TestC10(t *testing.T) {
 			s := sig[:c]
 			p, h := guarded(func() { subjSignature(s) })
 			if report("C10/signature", "ReadSignature+ComputeHashInfo", fmt.Sprintf("signature truncated at byte %d of %d", c, len(sig)), p, h, s) {
+				return
+			}
+			p, h = guarded(func() { subjSignatureGuard(s, newDir) })
+			if report("C10/signature", "safekeeper over the signed build", fmt.Sprintf("signature truncated at byte %d of %d", c, len(sig)), p, h, s) {
 				return
 			}
 		}
